@@ -514,6 +514,44 @@ def run(ctx):
         if not bad:
             r6.ok("%s returns 0 only as the result of the sub-socket's receive" % f.qname)
 
+    # the framing transports keep no state of their own about the byte stream's health: their finish answers success only
+    # as the result of the sub-socket's finish, whatever happened before (a remembered "established" is stale the moment
+    # the peer resets the connection)
+    r8 = ctx.rule("C06.R8", "finish of a framing transport succeeds only through the sub-socket's finish in the same call")
+    for t in tables:
+        if t.proto not in ("tcp", "tls"):
+            continue
+        f = t.slots["finish"]
+        r8.instance(f.qname)
+        bad8 = []
+        nz = [0]
+
+        class ThroughSub(S.SeqRule):
+            def user0(s2, fn):
+                return False
+
+            def inline(s2, fn, nid, callee):
+                return callee.static and callee.file == f.file and callee is not f
+
+            def on_call(s2, fn, st, nid, callees, exts):
+                if fn is f and (fn.nodes[nid].get("callee") or "") == "xcm_tp_socket_finish":
+                    return True
+                return None
+
+            def on_exit(s2, fn, st, ret_nid, ret_cls, top):
+                if top and ret_cls == S.ZERO:
+                    nz[0] += 1
+                    if not st.user and not bad8:
+                        bad8.append(ret_nid)
+        S.run(ThroughSub(P), f)
+        if nz[0] < 1:
+            raise Broken("C06.R8: no successful exit of %s explored" % f.name)
+        if bad8:
+            r8.violation("%s:success-without-sub-finish" % f.name, "%s can answer 0 without having asked the byte-stream socket below: after a reset, a timeout or the peer's "
+                         "close, xcm_finish() reports success instead of the connection's errno" % f.name, loc=f.loc(bad8[0]) if bad8[0] else f.file)
+        else:
+            r8.ok("%s: every successful exit passed the sub-socket's finish" % f.qname, "path exploration")
+
     # the peer's ORDERLY close must arrive as data followed by 0, not as a reset: see C02.R9
     from . import C02 as c02
     r7 = ctx.rule("C06.R7", "an orderly close by a TLS peer that never received is not turned into a reset (no unread post-handshake records)")
